@@ -26,6 +26,11 @@ pub struct StCase {
     /// older one is overwritten)
     #[serde(default)]
     pub double_submit: bool,
+    /// every few frames advance_frame() is first called with the input of the last player missing (decoy
+    /// values registered for the others): it must fail with InvalidRequest and change nothing - the inputs
+    /// registered afterwards are the ones that count
+    #[serde(default)]
+    pub retry_misuse: bool,
 }
 
 pub struct StOut {
@@ -98,6 +103,25 @@ pub fn run_case(c: &StCase) -> StOut {
     let mut results_by_idx: Vec<u64> = Vec::new();
     for _ in 0..c.frames {
         let before = sess.current_frame();
+        if c.retry_misuse && np >= 2 && before % 7 == 3 {
+            for h in 0..np - 1 {
+                let v = true_input(c.seed, h, before, 4);
+                let _ = sess.add_local_input(h, I1::from_v((v + 2) % 4));
+            }
+            match catch_unwind(AssertUnwindSafe(|| sess.advance_frame())) {
+                Ok(Err(GgrsError::InvalidRequest { .. })) if sess.current_frame() == before => {}
+                // a pending mismatch is reported first, also by this call
+                Ok(Err(GgrsError::MismatchedChecksum { current_frame, mismatched_frames })) => {
+                    out.mismatch = Some((current_frame, mismatched_frames));
+                    break;
+                }
+                Ok(other) => out.errors.push(("C16.synctest_missing_input".into(), format!("advance_frame() with the input of player {} missing at frame {before}: returned {:?}, current_frame() {} (expected InvalidRequest and no change)", np - 1, other.map(|v| v.len()), sess.current_frame()))),
+                Err(_) => {
+                    out.errors.push((format!("panic|{}", normalise(&take_panic())), format!("advance_frame with a missing input panicked at frame {before}")));
+                    return out;
+                }
+            }
+        }
         for h in 0..np {
             let v = true_input(c.seed, h, before, 4);
             if c.double_submit {
@@ -236,7 +260,7 @@ pub fn eval(c: &StCase) -> CaseResult {
     r
 }
 
-fn det_case(i: u64, seed: u64, frames: u16) -> StCase {
+pub fn det_case(i: u64, seed: u64, frames: u16) -> StCase {
     // players 1..=4 x window 1..=10 x cd 0..=11 x delay {0,1,3,7} x sparse
     let mut k = i;
     let players = 1 + (k % 4) as u8;
@@ -249,9 +273,9 @@ fn det_case(i: u64, seed: u64, frames: u16) -> StCase {
     k /= 4;
     let sparse = k % 2 == 1;
     k /= 2;
-    StCase { players, window, cd, delay, sparse, frames, seed: mix(seed, k), pert: None, own_snapshots: seed % 2 == 1, double_submit: (seed >> 1) % 2 == 1 }
+    StCase { players, window, cd, delay, sparse, frames, seed: mix(seed, k), pert: None, own_snapshots: seed % 2 == 1, double_submit: (seed >> 1) % 2 == 1, retry_misuse: (seed >> 2) % 2 == 1 }
 }
-const DET_CONFIGS: u64 = 4 * 10 * 12 * 4 * 2;
+pub const DET_CONFIGS: u64 = 4 * 10 * 12 * 4 * 2;
 
 fn detect_cases(max_f: i32) -> Vec<StCase> {
     let mut v = Vec::new();
@@ -262,7 +286,7 @@ fn detect_cases(max_f: i32) -> Vec<StCase> {
                     for f in 0..=max_f {
                         for pat in 0..4u8 {
                             for own_snapshots in [false, true] {
-                                v.push(StCase { players, window, cd, delay, sparse: false, frames: (f + cd as i32 + 12) as u16, seed: 7, pert: Some((f, pat)), own_snapshots, double_submit: (f + pat as i32) % 3 == 0 });
+                                v.push(StCase { players, window, cd, delay, sparse: false, frames: (f + cd as i32 + 12) as u16, seed: 7, pert: Some((f, pat)), own_snapshots, double_submit: (f + pat as i32) % 3 == 0, retry_misuse: (f + pat as i32) % 4 == 1 });
                             }
                         }
                     }
@@ -314,7 +338,7 @@ pub fn c02_part(ctx: &Ctx) -> PartReport {
             let r = mix(seed ^ 0xc02, i);
             let window = 1 + (r % 10) as u8;
             let cd = ((r >> 8) % window as u64) as u8;
-            StCase { players: 1 + ((r >> 16) % 4) as u8, window, cd, delay: [0u8, 1, 3, 7][((r >> 24) % 4) as usize], sparse: false, frames: 150, seed: r, pert: None, own_snapshots: (r >> 32) % 3 == 0, double_submit: (r >> 36) % 2 == 0 }
+            StCase { players: 1 + ((r >> 16) % 4) as u8, window, cd, delay: [0u8, 1, 3, 7][((r >> 24) % 4) as usize], sparse: false, frames: 150, seed: r, pert: None, own_snapshots: (r >> 32) % 3 == 0, double_submit: (r >> 36) % 2 == 0, retry_misuse: (r >> 40) % 2 == 0 }
         },
         |c| {
             let mut r = eval(c);
